@@ -181,6 +181,18 @@ REGISTRY["C12"] = {
                     "modelled order is what the engine observes"],
 }
 
+REGISTRY["C19"] = {
+    "engine": "engine_gql",
+    "theorems": [(A + "Gql", "Api.Gql.C19_nullability"), (A + "Gql", "Api.Gql.C19_list_elements"), (A + "Gql", "Api.Gql.C19_names"),
+                 (A + "Gql", "Api.Gql.C19_one_to_one"), (A + "Gql", "Api.Gql.C19_args_gate")],
+    "model_is_spec": True,
+    "partial": "nullability at every list level, names, one-to-one correspondence of named types and the argument gate are proved on the translation model; "
+               "graphql-core's validation and execution engine are modelled not verified: validate_schema and graphql_sync are run by the engine; unions, "
+               "interfaces, ID types, relay and subscriptions are not covered",
+    "trusted_extra": ["graphql-core 3.2 (validate_schema, graphql_sync) as the execution oracle"],
+    "assumptions": ["the output-type translation model covers scalars, Optional, List and named object types; input types and enums are observed by the engine"],
+}
+
 LEVEL_NOTE = ("Trusted: Lean 4.33 kernel; axioms propext / Classical.choice / Quot.sound only (audited by #print axioms on every run, no sorry / "
               "native_decide / own axioms); the hand-written model, tied to /repo by the differential correspondence of this check (same cases to the "
               "real code and to the compiled Lean driver); tools/extract.py for the regenerated tables; CPython / typing / dataclasses. "
@@ -230,11 +242,14 @@ TEXT["C11"] = ("Kernel-checked theorem: every modelled view (deserialize, serial
 TEXT["C12"] = ("Kernel-checked statements of the commuting squares on a model of conversion resolution (deserialize(C, d) = f(deserialize(S, d)) with the same "
                "rejections, registration order, dynamic conversions consumed at their target, identity bypass, locality at object fields, reach through "
                "containers), for every world of opaque converters; tied by running the squares on the real code with fresh converted classes.")
+TEXT["C19"] = ("Kernel-checked theorems on the model of the Python-to-GraphQL type translation (non-null exactly when not Optional, at every list level; the named "
+               "type is the class or scalar; distinct names stay distinct) and on the argument gate (resolver invoked iff every argument deserializes); "
+               "tied by generated resolvers whose schemas are validated and executed with graphql-core and compared with serialize / deserialize.")
 for k, v in TEXT.items():
     REGISTRY[k]["level_text"] = v
     REGISTRY[k]["level_note"] = LEVEL_NOTE
 
 # properties registered in MANIFEST.json (a property is claimed once its check is green on the unchanged tree)
-CLAIMED = ["C01", "C02", "C03", "C04", "C05", "C06", "C07", "C08", "C09", "C10", "C11", "C12", "C13", "C14", "C15", "C16", "C17", "C18"]
+CLAIMED = ["C01", "C02", "C03", "C04", "C05", "C06", "C07", "C08", "C09", "C10", "C11", "C12", "C13", "C14", "C15", "C16", "C17", "C18", "C19"]
 PENDING_REASON = "check under construction in this session (model and theorems exist, engine being registered); not yet claimed"
 NOT_CLAIMED = {f"C{i:02d}": PENDING_REASON for i in range(1, 21) if f"C{i:02d}" not in CLAIMED}
